@@ -282,6 +282,43 @@ theorem populate_succ (s : Schema) (f : Nat) (n : String) (l : List OA) :
           | none => acc ++ [{ name := a.name, creator := n, deriver := a.kind == .derived }])
           (e.supers.foldl (fun acc sup => populate s f sup acc) l) := rfl
 
+/-- the end of a chain of redeclarations of `x` that starts at a supertype named by some redeclaration of `x`: every entity that
+    declares `x` is that end or one of its supertypes (each link of the chain is a redeclaration, to which `r1` applies) -/
+theorem redeclTarget_ok {s : Schema} (r1 : RedeclNamesOneLine s) {c : Entity} (hc : c ∈ s.entities) (x : String)
+    (hcd : declares c x = true) : ∀ (f : Nat) (sup : String),
+    (∃ e0 ∈ s.entities, ∃ a0 ∈ e0.attrs, a0.name = x ∧ a0.redecl = some sup) →
+    isSelfOrSuper s (fuelOf s) (redeclTarget s f sup x) c.name = true := by
+  intro f
+  induction f with
+  | zero =>
+    intro sup ⟨e0, he0, a0, ha0, hn0, hr0⟩
+    exact r1 e0 he0 a0 ha0 sup (by rw [hr0]; rfl) c hc (by rw [hn0]; exact hcd)
+  | succ f ih =>
+    intro sup hsup
+    have base : isSelfOrSuper s (fuelOf s) sup c.name = true := by
+      obtain ⟨e0, he0, a0, ha0, hn0, hr0⟩ := hsup
+      exact r1 e0 he0 a0 ha0 sup (by rw [hr0]; rfl) c hc (by rw [hn0]; exact hcd)
+    unfold redeclTarget
+    cases hE : s.findE sup with
+    | none => exact base
+    | some e =>
+      simp only
+      cases hb : e.attrs.find? (fun b => b.name == x) with
+      | none => exact base
+      | some b =>
+        simp only
+        cases hq : b.redecl with
+        | none => exact base
+        | some q =>
+          simp only
+          by_cases hqs : (q == sup) = true
+          · simp only [hqs, if_true]; exact base
+          · simp only [hqs]
+            have hbx : b.name = x := by
+              have := List.find?_some hb
+              simpa using this
+            exact ih q ⟨e, findE_mem hE, b, List.mem_of_find?_eq_some hb, hbx, hq⟩
+
 /-- on entries created by declaring entities the creator test of a redeclaration always passes -/
 theorem creatorOK_of_decl {s : Schema} (r1 : RedeclNamesOneLine s) {e : Entity} (he : e ∈ s.entities) {a : Attr} (ha : a ∈ e.attrs)
     {o : OA} (ho : DeclBy s o) (hnm : o.name = a.name) : creatorOK s a o.creator = true := by
@@ -290,8 +327,13 @@ theorem creatorOK_of_decl {s : Schema} (r1 : RedeclNamesOneLine s) {e : Entity} 
   | none => rfl
   | some sup =>
     obtain ⟨c, hcm, hcn, hcd⟩ := ho
-    have := r1 e he a ha sup (by rw [hr]; rfl) c hcm (by rw [← hnm]; exact hcd)
-    simp [hcn ▸ this]
+    have hcd' : declares c a.name = true := by rw [← hnm]; exact hcd
+    have h1 := r1 e he a ha sup (by rw [hr]; rfl) c hcm hcd'
+    have h2 := redeclTarget_ok r1 hcm a.name hcd' (fuelOf s) sup ⟨e, he, a, ha, rfl, hr⟩
+    simp only
+    by_cases hf : redeclFollowsChain = true
+    · simp [hf, hcn ▸ h2]
+    · simp [hf, hcn ▸ h1]
 
 /-- `populate_ctx` for the creator-aware search, at sufficient fuel -/
 theorem populateP_ctx {s : Schema} {rank : String → Nat} (wf : WF s rank) (rr : RedeclResolves s) (r1 : RedeclNamesOneLine s) :
